@@ -26,7 +26,9 @@ import (
 // Namespace used by all storage checks.
 var Namespace = func() common.Namespace {
 	var ns common.Namespace
-	copy(ns[:], []byte("verif-harness-namespace-00000001"))
+	// The first 8 bytes are flag bits (all reserved except test / key manager): keep them zero, otherwise the
+	// namespace cannot be decoded when an on-disk database is reopened.
+	copy(ns[8:], []byte("verif-harness-namespace1"))
 	return ns
 }()
 
